@@ -547,6 +547,239 @@ def gen_empty_src(rng, casedir):
             "wargs": wargs, "stdin": stdin, "env": env, "casedir": casedir, "nfiles": len(files), "alt_spelling": False}
 
 
+# ------------------------------------------------------------------ pinned cases: run FIRST in every run, no randomness
+def fs_alias(disk, casedir):
+    """the path STRINGS under which the reader may come to a file on disk (pdsh runs in casedir): as it is, with
+    `./`, absolute, and through `../<case directory>/`"""
+    fs = {}
+    bn = os.path.basename(casedir)
+    for p, v in disk.items():
+        for key in (p, "./" + p, casedir + "/" + p, "../" + bn + "/" + p):
+            fs[key] = v
+    return fs
+
+
+def pinned_cases(base, linebuf):
+    """the classes every quick run must cover, enumerated (no draw decides whether a class is reached):
+    every source kind alone and in every ordered pair x WCOLL unset/set x separate/comma-joined options; WCOLL alone
+    naming a good / missing / unreadable / empty file or `-`; every include-name spelling x every command-line style
+    with the current directory != the file's directory and decoys where a wrong lookup would land; nested lookups
+    (directory of the COMMAND-LINE file, not of the including file); chains, diamonds, cycles, cycle to top,
+    self-include, the same file under two spellings; line lengths k*(LINEBUFSIZE-1)+{-1,0,+1} (k=1,2,3) with a
+    following line and as an unterminated last line, in a top file, an included file and stdin; lexical forms;
+    `#include` look-alikes; missing / unreadable files at every depth; more skipped duplicates than descriptors"""
+    import random
+    out = []
+
+    def add(tag, disk, sources, wargs, stdin=None, env=None, stream="plain", shape="pinned", nofile=None, fs=None, **kw):
+        casedir = os.path.join(base, "p%d" % len(out))
+        if callable(disk):
+            disk = disk(casedir)
+        if callable(sources):
+            sources, wargs, env = sources(casedir)
+        c = {"stream": stream, "shape": shape, "pin": tag, "disk": dict(disk),
+             "fs": fs_alias(disk, casedir) if fs is None else fs, "sources": sources, "wargs": wargs, "stdin": stdin,
+             "env": env, "casedir": casedir, "nfiles": len(disk), "alt_spelling": kw.get("alt", False)}
+        if nofile:
+            c["nofile"] = nofile
+        out.append(c)
+        return c
+
+    # ---- A. sources: alone and in every ordered pair, WCOLL unset / set, separate options / one comma-joined option
+    base_disk = {"t/A": (True, "a1\n#include B\na2\n"), "t/B": (True, "b[1-2]\n"), "t/E": (True, "# nothing here\n\n \t\n"),
+                 "t/W": (True, "wc1\n#include B\n"), "t/X": (True, "b1 # out of service\n"), "t/U": (False, "u1\n"),
+                 "t/Z": (True, ""), "B": (True, "decoy-b\n")}
+    kinds = {"w": (("w", "w[1-2]"), "w[1-2]"), "v": (("w", "v7"), "v7"), "f": (("f", "t/A"), "^t/A"), "s": (("s",), "^-"),
+             "e": (("f", "t/E"), "^t/E"), "x": (("x", "t/X"), "-^t/X")}
+    STDIN = "s1\n# c\n s2 \n#include t/B\n"          # (stdin's includes are looked up in `.`: t/B is ./t/B)
+    combos = [[k] for k in "wfsex"] + [[a, ("v" if (a == b == "w") else b)] for a in "wfsex" for b in "wfsex"]
+    for combo in combos:
+        for env in (None, "t/W"):
+            for joined in (False, True):
+                srcs = [kinds[k][0] for k in combo]
+                if joined:
+                    wargs = [",".join(kinds[k][1] for k in combo)]
+                    if len(combo) == 1 and combo[0] not in "sx":
+                        continue            # (one piece: the separate form is the same command line)
+                else:
+                    wargs = [("x", "^t/X") if k == "x" else "-" if k == "s" else kinds[k][1] for k in combo]
+                sin = STDIN if "s" in combo else None
+                add("src:%s:%s:%s" % ("".join(combo), "wcoll" if env else "noenv", "joined" if joined else "separate"),
+                    base_disk, srcs, wargs, stdin=sin, env=env)
+    # empty stdin as the only source (a source WAS given: WCOLL must not be consulted), empty file + empty stdin
+    for sin in ("", "# no host\n\n"):
+        add("src:empty-stdin", base_disk, [("s",)], ["-"], stdin=sin, env="t/W")
+        add("src:empty-file+empty-stdin", base_disk, [("f", "t/Z"), ("s",)], ["^t/Z,^-"], stdin=sin, env="t/W")
+        add("src:include-of-empty", dict(base_disk, **{"t/I": (True, "#include Z\n# c\n")}), [("f", "t/I")], ["^t/I"],
+            env="t/W")
+    # WCOLL alone
+    for env, sin in (("t/W", None), ("t/missing", None), ("t/U", None), ("t/E", None), ("t/Z", None), ("-", "k1\nk2\n"),
+                     ("./t/W", None)):
+        add("wcoll-only:%s" % env, base_disk, [], [], stdin=sin, env=env)
+    add("wcoll-only:absolute", base_disk, lambda cd: ([], [], cd + "/t/W"), None)
+    add("wcoll+exclusion-only", base_disk, [("x", "t/X")], [("x", "^t/X")], env="t/W")
+    # WCOLL names a missing / unreadable file but a source is given: it is never opened
+    add("wcoll-missing-overridden", base_disk, [("w", "w1")], ["w1"], env="t/missing")
+    add("wcoll-unreadable-overridden", base_disk, [("f", "t/A")], ["^t/A"], env="t/U")
+    # ---- B. include-name spellings x command-line styles, cwd != directory of the file, decoys
+    for style in ("rel", "dot", "abs", "updir"):
+        for spell in ("bare", "sub", ".hid", "..two", ".d/in", "./cwd", "../up", "abs", "trail-blanks", "tab-sep"):
+            def disk(cd, style=style, spell=spell):
+                inc = {"bare": "B", "sub": "s/B", ".hid": ".hidB", "..two": "..twoB", ".d/in": ".d/B", "./cwd": "./o/B",
+                       "../up": "../" + os.path.basename(cd) + "/o/B", "abs": cd + "/o/B", "trail-blanks": "B \t ",
+                       "tab-sep": "B"}[spell]
+                sep = "\t \t" if spell == "tab-sep" else " "
+                d = {"t/A": (True, "a1\n#include%s%s\na2\n" % (sep, inc))}
+                name = inc.strip(" \t")
+                if spell in ("./cwd", "../up", "abs"):
+                    d["o/B"] = (True, "right[1-2]\n")
+                    d["t/o/B"] = (True, "decoy-next-to-top\n")
+                else:
+                    d["t/" + name] = (True, "right[1-2]\n")
+                    d[name] = (True, "decoy-in-cwd\n")
+                return d
+
+            def srcs(cd, style=style):
+                top = {"rel": "t/A", "dot": "./t/A", "abs": cd + "/t/A", "updir": "../" + os.path.basename(cd) + "/t/A"}[style]
+                return [("f", top)], ["^" + top], None
+            add("spell:%s:%s" % (style, spell), disk, srcs, None)
+    # the top file in the current directory (dirname = `.`)
+    add("spell:cwd-top", {"A": (True, "a1\n#include B\n#include s/C\n"), "B": (True, "b1\n"), "s/C": (True, "c1\n#include B\n")},
+        [("f", "A")], ["^A"])
+    # nested lookups: the directory of the file NAMED ON THE COMMAND LINE, not of the including file
+    nested = {"t/A": (True, "a1\n#include s/B\na2\n"), "t/s/B": (True, "b1\n#include C\n#include s/D\nb2\n"),
+              "t/C": (True, "c-right\n"), "t/s/C": (True, "c-decoy-next-to-includer\n"), "C": (True, "c-decoy-in-cwd\n"),
+              "t/s/D": (True, "d-right\n#include C\n"), "t/s/s/D": (True, "d-decoy\n")}
+    for style in ("rel", "dot", "abs"):
+        add("nested-lookup:%s" % style, nested,
+            lambda cd, style=style: (lambda top: ([("f", top)], ["^" + top], None))(
+                {"rel": "t/A", "dot": "./t/A", "abs": cd + "/t/A"}[style]), None)
+    add("nested-lookup:wcoll", nested, [], [], env="t/A")
+    add("nested-lookup:exclusion-file", nested, [("w", "c-right,keep1"), ("x", "t/A")], ["c-right,keep1", ("x", "^t/A")])
+    # an include only the including file's directory holds: an error (not found in the command-line file's directory)
+    add("nested-lookup:only-next-to-includer", {"t/A": (True, "#include s/B\n"), "t/s/B": (True, "#include K\n"),
+                                                "t/s/K": (True, "k1\n")}, [("f", "t/A")], ["^t/A"], stream="broken")
+    # ---- C. include graphs
+    graphs = {
+        "chain": {"A": "a1\n#include B\na2\n", "B": "b1\n#include C\nb2\n", "C": "c1\n#include D\nc2\n", "D": "d1\n"},
+        "diamond": {"A": "#include L\n#include R\na9\n", "L": "l1\n#include D\n", "R": "#include D\nr1\n", "D": "d[1-2]\n"},
+        "twice": {"A": "#include D\nmid\n#include D\n#include D\n", "D": "d1\n"},
+        "cycle": {"A": "a1\n#include B\na2\n", "B": "b1\n#include C\nb2\n", "C": "c1\n#include B\nc2\n"},
+        "cycle-top": {"A": "a1\n#include B\na2\n", "B": "b1\n#include A\nb2\n"},
+        "self-top": {"A": "a1\n#include A\na2\n"},
+        "self-inner": {"A": "a1\n#include B\na2\n", "B": "b1\n#include B\n#include B\nb2\n"},
+        "wide-tree": {"A": "".join("#include F%d\n" % i for i in range(8)),
+                      **{"F%d" % i: "f%d\n#include Z\n" % i for i in range(8)}, "Z": "z1\n"},
+    }
+    for gname, files in graphs.items():
+        d = {"t/" + n: (True, ct) for n, ct in files.items()}
+        add("graph:%s" % gname, d, [("f", "t/A")], ["^t/A"], shape=gname if gname in ("chain", "diamond", "cycle", "cycle-top") else "pinned")
+        add("graph:%s:wcoll" % gname, d, [], [], env="t/A")
+        add("graph:%s:between-words" % gname, d, [("w", "w1"), ("f", "t/A"), ("w", "w2")], ["w1,^t/A,w2"])
+    # the same file under two spellings that resolve to the SAME path string: skipped; to different strings: read
+    for style in ("rel", "dot", "abs"):
+        def disk2(cd, style=style):
+            dtop = {"rel": "t", "dot": "./t", "abs": cd + "/t"}[style]
+            other = "./t/B" if style == "rel" else dtop + "/B"     # rel: `t/B` vs `./t/B` are two strings (read twice)
+            return {"t/A": (True, "#include B\n#include %s\n#include L\nend\n" % other), "t/B": (True, "b1\n"),
+                    "t/L": (True, "l1\n#include %s\n#include B\n" % other)}
+        add("two-spellings:%s" % style, disk2,
+            lambda cd, style=style: (lambda top: ([("f", top)], ["^" + top], None))(
+                {"rel": "t/A", "dot": "./t/A", "abs": cd + "/t/A"}[style]), None, alt=True)
+    # ---- D. line lengths around k buffers, followed by a line / as the unterminated last line / elsewhere
+    step = linebuf - 1
+    for k in (1, 2, 3):
+        for delta in (-1, 0, 1):
+            r = random.Random(1000 * k + delta + 7)
+            n = k * step + delta - 1            # the line with its newline is delta bytes off k buffers
+            line = long_line(r, n, fill=[",", " ", "\t"][k - 1], comment=False, linebuf=linebuf)
+            add("len:%d*%d%+d:followed" % (k, step, delta), {"t/A": (True, "first\n" + line + "\nnext1,next2\nlast\n")},
+                [("f", "t/A")], ["^t/A"], stream="long")
+            add("len:%d*%d%+d:last-unterminated" % (k, step, delta), {"t/A": (True, "first\n" + line)},
+                [("f", "t/A")], ["^t/A"], stream="long")
+            add("len:%d*%d%+d:last-terminated" % (k, step, delta), {"t/A": (True, line + "\n")},
+                [("f", "t/A")], ["^t/A"], stream="long")
+            if k == 1:
+                add("len:%d*%d%+d:included" % (k, step, delta),
+                    {"t/A": (True, "a1\n#include B\na2\n"), "t/B": (True, line + "\nb-next\n")}, [("f", "t/A")], ["^t/A"],
+                    stream="long")
+                add("len:%d*%d%+d:stdin" % (k, step, delta), {"t/A": (True, "a1\n")}, [("s",), ("f", "t/A")], ["-", "^t/A"],
+                    stdin=line + "\ns-next\n", stream="long")
+                add("len:%d*%d%+d:wcoll" % (k, step, delta), {"t/W": (True, line + "\nw-next")}, [], [], env="t/W",
+                    stream="long")
+                add("len:%d*%d%+d:comment-tail" % (k, step, delta),
+                    {"t/A": (True, "h1 #" + line[4:].replace("#", " ") + "\nafter\n")}, [("f", "t/A")], ["^t/A"], stream="long")
+                add("len:%d*%d%+d:all-blank" % (k, step, delta),
+                    {"t/A": (True, " " * n + "\nafter\n")}, [("f", "t/A")], ["^t/A"], stream="long")
+    # two long lines in a row, each an exact multiple (a reader that glues on "buffer full" loses both boundaries)
+    r = random.Random(4711)
+    l1 = long_line(r, step - 1, fill=",", comment=False, linebuf=linebuf)
+    l2 = long_line(r, 2 * step - 1, fill=" ", comment=False, linebuf=linebuf)
+    add("len:two-exact-multiples", {"t/A": (True, l1 + "\n" + l2 + "\nq1\n")}, [("f", "t/A")], ["^t/A"], stream="long")
+    # ---- E. lexical forms
+    add("lexical", {"t/A": (True, "  a1  \n\ta2\t\n# c\n\n   \n\t\na3 # tail\na4#tail\n#\n#!x\n a5,a6 \n\t n[1-2]\t # t # u\n"
+                                  "q7 q8\tq9\n#comment #include B\nh2 #include B\n")}, [("f", "t/A")], ["^t/A"])
+    add("lexical:cr", {"t/A": (True, "foo\r\nbar\r\n")}, [("f", "t/A")], ["^t/A"])
+    add("lexical:only-noise", {"t/A": (True, "\n\n#\n   \n# x\n\t\n")}, [("f", "t/A")], ["^t/A"])
+    add("lexical:no-final-newline", {"t/A": (True, "a1\n  a2  ")}, [("f", "t/A")], ["^t/A"])
+    add("lexical:include-last-unterminated", {"t/A": (True, "a1\n#include B"), "t/B": (True, "b1")}, [("f", "t/A")], ["^t/A"])
+    # ---- F. `#include` look-alikes (the reader is more liberal than the property text: model correspondence only)
+    for i, bad in enumerate(MALFORMED + ["#include\tB", "#include B\t \t", "#INCLUDE B", "# include B", "#include  ",
+                                         "##include B", "#include B#c", "#include \"B\"", "#include <B>"]):
+        add("lookalike:%d" % i, {"t/A": (True, "a1\n" + bad + "\na2\n"), "t/B": (True, "b1\n"), "t/C": (True, "c1\n"),
+                                 "t/\"B\"": (True, "q1\n"), "t/<B>": (True, "angle1\n"), "t/B#c": (True, "hash1\n")},
+            [("f", "t/A")], ["^t/A"], stream="malformed")
+    # ---- G. missing / unreadable at every depth (an ERROR, never a shorter list), also behind hosts already read
+    chain = graphs["chain"]
+    for depth, victim in enumerate("ABCD"):
+        for how in ("missing", "unreadable"):
+            d = {"t/" + n: (True, ct) for n, ct in chain.items()}
+            if how == "missing":
+                del d["t/" + victim]
+            else:
+                d["t/" + victim] = (False, chain[victim])
+            add("broken:%s:depth%d" % (how, depth), d, [("f", "t/A")], ["^t/A"], stream="broken")
+            add("broken:%s:depth%d:after-good-sources" % (how, depth), d, [("w", "w1"), ("f", "t/A"), ("w", "w2")],
+                ["w1", "^t/A", "w2"], stream="broken")
+            add("broken:%s:depth%d:exclusion-file" % (how, depth), d, [("w", "w1"), ("x", "t/A")], ["w1", ("x", "^t/A")],
+                stream="broken")
+            add("broken:%s:depth%d:wcoll" % (how, depth), d, [], [], env="t/A", stream="broken")
+            add("broken:%s:depth%d:wcoll-not-consulted" % (how, depth), d, [("w", "w1")], ["w1"], env="t/A", stream="broken")
+    # a file that is unreadable is an error even though a readable file of the same name sits in the current directory
+    add("broken:unreadable-with-decoy", {"t/A": (True, "#include B\n"), "t/B": (False, "b1\n"), "B": (True, "decoy\n")},
+        [("f", "t/A")], ["^t/A"], stream="broken")
+    # ---- H. descriptors: more skipped duplicates than the limit allows, every shape, every way to name the top file
+    for si, shape in enumerate(("fan-diamond", "fan-cycle", "fan-self")):
+        for kind in ("file", "env", "xfile"):
+            limit = 16
+            k = limit + 12
+            files = {}
+            if shape == "fan-diamond":
+                files["common"] = "login[1-2]\n"
+                top = []
+                for i in range(k):
+                    files["rack%d" % i] = ("r%dn1\n" % i if i in (0, k - 1) else "") + "#include common\n"
+                    top.append("#include rack%d" % i)
+            elif shape == "fan-cycle":
+                files["cyc_a"] = "a1\n#include cyc_b\n"
+                files["cyc_b"] = "b1\n#include cyc_a\n"
+                top = ["#include cyc_a" if i % 2 == 0 else "#include cyc_b" for i in range(k)]
+            else:
+                files["me"] = "m1\n" + "#include me\n" * k + "m2\n"
+                top = ["#include me"]
+            files["all"] = "\n".join(["z1"] + top + ["tail[8-9]"]) + "\n"
+            d = {"site/" + n: (True, ct) for n, ct in files.items()}
+            if kind == "file":
+                s, w, e = [("f", "site/all")], ["^site/all"], None
+            elif kind == "env":
+                s, w, e = [], [], "site/all"
+            else:
+                s, w, e = [("w", "z[1-3]")] + [("x", "site/all")], ["z[1-3]", ("x", "^site/all")], None
+            c = add("descriptors:%s:%s" % (shape, kind), d, s, w, env=e, stream="wide", shape=shape, nofile=limit)
+            c["duplicates"] = k
+    return out
+
+
 # ------------------------------------------------------------------ running the real pdsh
 def materialise(case):
     d = case["casedir"]
@@ -983,7 +1216,7 @@ def run(ctx):
             cases = [case_from_json(j["case"]["case"], os.path.join(base, "replay"))]
         else:
             n = 900 if ctx.quick() else 12000
-            cases = []
+            cases = pinned_cases(base, linebuf)
             # the witnesses of Props/C10.lean `include_line_restriction_forced`, run on the real pdsh (model
             # correspondence: the real binary must do what the reader side of the witness does), and an
             # ordinary line with CR (inside the theorem's and the oracle's domain)
@@ -1030,6 +1263,9 @@ def run(ctx):
                 r = res["real"]
                 dist["streams"][c["stream"]] = dist["streams"].get(c["stream"], 0) + 1
                 dist["shapes"][c["shape"]] = dist["shapes"].get(c["shape"], 0) + 1
+                if c.get("pin"):
+                    pk = c["pin"].split(":")[0]
+                    dist.setdefault("pinned_classes", {})[pk] = dist.setdefault("pinned_classes", {}).get(pk, 0) + 1
                 dist["files"][str(c["nfiles"])] = dist["files"].get(str(c["nfiles"]), 0) + 1
                 dist["rc"][str(r["rc"])] = dist["rc"].get(str(r["rc"]), 0) + 1
                 dist["with_stdin"] += 1 if c["stdin"] is not None else 0
